@@ -5,15 +5,15 @@ import json, sys
 CLAIMED = {
  "C01": ("exploration", "6.1", "seeded storage transactions (lossless Encode through a simulated writer, Decode through a simulated reader) under drawn worker count, schedule policy and pool behaviour; oracle: decoded pixels == source pixels. Sampling over images/options, not proof."),
  "C02": ("exploration", "6.1", "seeded storage transactions with writer faults; on acknowledged success the stored bytes are checked by an independent RIFF walker, this package's decoder and the independent x/image decoders. Sampling, not proof."),
- "C05": ("exploration", "6.3", "stored-byte corruption (bit flips, torn/duplicated/spliced blocks, length tampering, hostile headers) applied to valid files on the simulated disk, every decoding entry point run on the result incl. parallel frame decoding under the scheduler; oracle: no panic / deadlock / over-budget, well-formed results."),
+ "C05": ("exploration", "6.3", "stored-byte corruption (bit flips, torn/duplicated/spliced blocks, length tampering, hostile headers) applied to valid files on the simulated disk, plus hand-crafted VP8L streams and hand-crafted VP8 key frames (own bit writer / boolean encoder) with damage variants; every decoding entry point run on the result incl. parallel frame decoding under the scheduler; oracle: no panic / deadlock / over-budget, well-formed results."),
  "C06": ("exploration", "6.4", "lossy encodes under drawn worker count and schedule (serial and row-pipelined encoder); oracle: encoder reconstruction (verif hook) == decoder pre-filter planes == independent decoder's pre-filter planes."),
  "C07": ("exploration", "6.1", "seeded storage transactions of lossy images with transparency across alpha compression/filter/quality/method; oracle: decoded alpha == source alpha (or the documented level law)."),
  "C08": ("exploration", "6.6", "histories of AddFrame calls on the lossless animation encoder with tolerated codec-failure faults and writer faults; oracle: playback == reference list of canvases/durations."),
  "C09": ("exploration", "6.5", "histories of NextFrame/HasNext/Reset calls on AnimDecoder over programmatically built animations; oracle: reference compositor written from the container specification, snapshot digests."),
  "C10": ("exploration", "6.2", "seeded search over goroutine interleavings (every sync/atomic/pool/channel operation is a scheduling point; uniform, sticky, PCT, round-robin, delay-bounded policies) of the real library; oracles: no deadlock state, no panic, no happens-before race (TSan on the serialised schedule), result == solo result."),
- "C11": ("exploration", "6.2", "seeded call histories in one world whose pools return PRNG-chosen reused objects; oracle: result == first-call-in-fresh-world result; returned values stay unmodified."),
+ "C11": ("exploration", "6.2", "seeded call histories (incl. hostile inputs and runs of hand-crafted VP8 key frames that set / rely on the decoder's persistent header state) in one world whose pools return PRNG-chosen reused objects; oracle: result == first-call-in-fresh-world result; returned values stay unmodified."),
  "C12": ("exploration", "6.2", "the same operation in fresh worlds for every uniform worker count; oracle: result == worker-count-1 result; fidelity probe against the un-rewritten library with real GOMAXPROCS."),
- "C14": ("exploration", "6.7", "histories of Muxer calls with writer faults at every Write of Assemble; oracle: reference muxer model + demuxer + container parser + independent walker."),
+ "C14": ("exploration", "6.7", "histories of Muxer calls with writer faults at every Write of Assemble; oracle: reference muxer model + demuxer + container parser (compared directly, field by field and chunk by chunk) + independent walker; histories include application chunks, unrepresentable offsets and alpha prefixes the container has no place for."),
  "C17": ("fault_enumeration", "6.8", "every proper prefix (torn write at every byte) of every generated still file x reader behaviours; oracle: error, or result identical to the full file."),
  "C18": ("exploration", "6.6", "histories of AddFrame calls in lossy / mixed mode; oracle: played-back alpha == source alpha per frame."),
 }
